@@ -30,6 +30,7 @@ class Env:
         self.fn_ret = [None]       # return type of the function being generated, per context
         self.depth_fn = 0
         self.defining = set()
+        self.all_names = []
 
     def fresh(self, base="v"):
         self.counter += 1
@@ -37,6 +38,14 @@ class Env:
 
     def declare(self, name, ty):
         self.ctx[-1][-1][name] = ty
+        if not name.startswith("i") and name not in self.all_names:
+            self.all_names.append(name)
+
+    def borrowed(self, rng, avoid=()):
+        """a name that is already in use SOMEWHERE in the program (a global, a function, a parameter or local of
+        another function, a nested function): collisions between the name spaces must not matter"""
+        pool = [n for n in self.all_names if n not in self.defining and n not in avoid]
+        return rng.choice(pool) if pool else None
 
     def push_scope(self):
         self.ctx[-1].append({})
@@ -61,7 +70,10 @@ class Env:
         out = {}
         if len(self.ctx) > 1:
             for name, ty in self.ctx[0][0].items():
-                out[name] = ty
+                # (a function written inside an open top-level block resolves a name that the block redeclares to the
+                # block's variable: not offered, 4.3 item 9)
+                if not any(name in sc for sc in self.ctx[0][1:]):
+                    out[name] = ty
         for scope in self.ctx[-1]:
             for name, ty in scope.items():
                 out[name] = ty
@@ -72,8 +84,9 @@ class Env:
 
 
 class Gen:
-    def __init__(self, rng, p_err=0.03, alloc=0.3, max_depth=4, floats=True, prints=True, loops=True, funcs=True):
+    def __init__(self, rng, p_err=0.03, alloc=0.3, max_depth=4, floats=True, prints=True, loops=True, funcs=True, collide=0.0):
         self.rng, self.p_err, self.alloc, self.max_depth = rng, p_err, alloc, max_depth
+        self.collide = collide
         self.floats, self.prints, self.loops, self.funcs = floats, prints, loops, funcs
         self.env = Env()
         self.stats = {}
@@ -239,7 +252,12 @@ class Gen:
     def fn_literal(self, fty, name):
         """functie name(params) { body } of type fty; recursion-free unless it counts a parameter down"""
         env = self.env
-        params = [env.fresh("p") for _ in fty[1]]
+        params = []
+        for _ in fty[1]:
+            b = env.borrowed(self.rng, avoid=params + [name]) if self.rng.random() < self.collide else None
+            if b:
+                self.note("collide-param")
+            params.append(b or env.fresh("p"))
         if name:
             env.declare(name, fty)
             env.defining.add(name)
@@ -313,6 +331,11 @@ class Gen:
                 if outer:
                     name = r.choice(outer)         # shadowing
                     self.note("shadow")
+            elif r.random() < self.collide:
+                b = env.borrowed(r)
+                if b:
+                    name = b
+                    self.note("collide-let")
             if isinstance(ty, tuple) and ty[0] == "fn":
                 # stel f = functie(...) {...}: the name is declared before the literal is evaluated, so a body that
                 # mentions the name would call ITSELF: always a fresh name (no redeclaration / shadowing here)
@@ -390,6 +413,11 @@ class Gen:
         if c < 0.96 and self.funcs and d > 0 and env.depth_fn < 2:
             fty = ("fn", [r.choice(["int", "int", "bool", "str", ("arr", "int")]) for _ in range(r.randint(0, 3))], r.choice(["int", "str", "bool", ("arr", "int"), "null"]))
             name = env.fresh("f")
+            if r.random() < self.collide:
+                b = env.borrowed(r)
+                if b:
+                    name = b
+                    self.note("collide-fn")
             self.note("named-fn")
             f = ("expr", self.fn_literal(fty, name))
             if r.random() < 0.6:
